@@ -1,9 +1,33 @@
-(* C02 — property theorems (being extended; see Proofs.v). *)
-From Coq Require Import List String.
-From NGF Require Import lib.Str k8s.State k8s.Spec.
+(* C02 — property theorems.
+
+   Path matching: the locations the generator derives from a server's path rules (model C02/PathSel.v, compared with the
+   location set of every server block the real generator emits), under NGINX's location selection, implement path
+   matching by whole path elements with precedence Exact > longest PathPrefix, for every set of rules and every
+   request path. The rest of the routing decision (hostnames, listeners, methods/headers/query parameters, filters,
+   backends) is decided per generated state and request by the oracle of C02/Check.v against k8s/Spec.v. *)
+From Coq Require Import List String Ascii Bool Arith.
+From NGF Require Import lib.Str k8s.State k8s.Spec C02.PathSel C02.PathSelProofs.
 Import ListNotations.
 
-(* placeholder kept honest: the winning gateway, when there is one, is a gateway of the class *)
+(* the location NGINX selects belongs to a rule that matches the request path, and every other matching rule is a
+   PathPrefix rule that loses to it: against an Exact rule always, against a PathPrefix rule by a strictly shorter path *)
+Theorem C02_selected_location_is_the_most_specific_match :
+  forall rs, keys_nodup rs = true ->
+  forall u l i r,
+    select (all_locs rs) u = Some l -> l_owner l = Some i -> nth_error rs i = Some r ->
+    rule_matches r u = true /\
+    forall j r', nth_error rs j = Some r' -> j <> i -> rule_matches r' u = true ->
+      pr_exact r' = false /\ (pr_exact r = true \/ List.length (pr_path r') < List.length (pr_path r)).
+Proof. exact select_sound. Qed.
+
+(* a request path that some rule matches is never answered by the default 404 location or by no location *)
+Theorem C02_matching_rule_is_served :
+  forall rs, (forall r, In r rs -> pr_path r <> []) ->
+  forall u i r, nth_error rs i = Some r -> rule_matches r u = true ->
+    exists l j, select (all_locs rs) u = Some l /\ l_owner l = Some j.
+Proof. exact select_complete. Qed.
+
+(* the winning gateway, when there is one, is a gateway of the class *)
 Theorem C02_winner_is_of_class :
   forall cs g, winning_gateway cs = Some g -> In g (c_gateways cs) /\ seqb (g_class g) our_class = true.
 Proof.
